@@ -24,6 +24,48 @@ DECODERS = {
 }
 
 
+def option_guards(an, b):
+    """Guards of the form `match map.get(&id) { Some(t) => .., None => .. }` on a cache map:
+    [(call block, get expr, switch block, Some target, None target, (adt, field))]."""
+    out = []
+    for blk in sorted(b.live_blocks()):
+        t = b.term(blk)
+        if t["k"] != "switch":
+            continue
+        e = peel(an.op(b, t["op"]))
+        if e[0] != "discr":
+            continue
+        g = peel(e[1])
+        if not (g[0] == "call" and g[2] is not None and g[2].npath in GET and len(g[3]) == 2):
+            continue
+        recv = peel(g[3][0])
+        if not (recv[0] == "field" and (recv[3], recv[2]) in DECODERS.values()):
+            continue
+        some_t = [tb for v, tb in t["targets"] if v == 1]
+        none_t = [tb for v, tb in t["targets"] if v == 0]
+        st = some_t[0] if some_t else t["otherwise"]
+        nt = none_t[0] if none_t else t["otherwise"]
+        if st == nt:
+            continue
+        out.append((g[1], g, blk, st, nt, (recv[3], recv[2])))
+    return out
+
+
+def template_handed_over(an, b, t):
+    """The call is given the template found by `get` on a cache map: -> (get expr, (adt, field)) or None."""
+    for a in t["args"]:
+        e = peel(an.op(b, a))
+        while e[0] in ("ref", "deref"):
+            e = peel(e[1])
+        if e[0] == "some":
+            g = peel(e[1])
+            if g[0] == "call" and g[2] is not None and g[2].npath in GET and len(g[3]) == 2:
+                recv = peel(g[3][0])
+                if recv[0] == "field" and (recv[3], recv[2]) in DECODERS.values():
+                    return g, (recv[3], recv[2])
+    return None
+
+
 def decoder_of(path):
     """'variable_versions::v9::Data::parse_be::{closure#0}' -> 'variable_versions::v9::Data'"""
     p = re.sub(r"(::\{closure#\d+\})+$", "", path)
@@ -58,6 +100,7 @@ def run(ctx, env):
     n = 0
     guarded_decoders = {}
     guard_bodies = {}
+    handed = set()
     def guard_helper(p):
         """A private helper that performs the contains_key test(s) on behalf of the dispatch function
         (`fn known_template_kind(&self, id) -> Option<Kind>`): inlined at CFG level into its caller."""
@@ -75,6 +118,27 @@ def run(ctx, env):
                 continue
             d = decoder_of(c.path)
             if d is None:
+                # lookup-then-decode: `match parser.templates.get(&id) { Some(t) => Data::from_template(i, t), .. }`.
+                # The decoder is handed the template itself; the call only exists on the Some edge of that get, and
+                # performs no lookup of its own (nothing to fall back to).
+                ho = template_handed_over(an, b, t) if (decoder_of(b.path) is None and not b.derived and "parse_le" not in b.path) else None
+                if ho is None:
+                    continue
+                g, mf = ho
+                d2 = [dd for dd, v in DECODERS.items() if v == mf][0]
+                key = peel(g[3][1])
+                while key[0] in ("ref", "deref"):
+                    key = peel(key[1])
+                og = [x for x in option_guards(an, b) if x[5] == mf and b.edge_dominates((x[2], x[3]), blk)]
+                okh = bool(og) and key[0] == "arg"
+                n += 1
+                guarded_decoders.setdefault(d2, []).append(okh)
+                handed.add(d2)
+                if okh:
+                    guard_bodies.setdefault(b.path, b)
+                ctx.ob("R7.1", b.path, "guarded:%s" % d2, okh,
+                       ("%s is handed the template found by get(&%s.%s, &id) and is only called on its Some edge (%s)" % (c.path.rsplit("::", 2)[-2] + "::" + c.path.rsplit("::", 1)[1], mf[0].rsplit("::", 1)[1], mf[1], b.line(og[0][0])))
+                       if okh else "decode call fed from a cache lookup that is not a dominating `Some` match on the id argument (key %s)" % canon(key)[:60], site=b.line(blk))
                 continue
             if decoder_of(b.path) == d:
                 continue  # parse -> parse_be delegation inside the decoder itself
@@ -122,7 +186,7 @@ def run(ctx, env):
     for w in ca.writes:
         write_blocks.setdefault(w["body"].path, set()).add(w["block"])
     for path, b in sorted(guard_bodies.items()):
-        guards = [g for g in guards_by_call(an, b, set(CONTAINS_KEY))]
+        guards = [g for g in guards_by_call(an, b, set(CONTAINS_KEY))] + [(x[0], x[1], x[2], x[3], x[4]) for x in option_guards(an, b)]
         true_edges = set((sw, tt) for (cb, ce, sw, tt, ff) in guards)
         # region: from every guard's false target, never taking a guard's true edge
         # (path-sensitive: enum values built on the way — e.g. the `None` a guard helper returns when no test
@@ -197,6 +261,14 @@ def run(ctx, env):
         if d:
             fb_decoders.add(d)
         ok = d is not None and bool(guarded_decoders.get(d)) and all(guarded_decoders[d])
+        if not ok and d is None and rb.path in guard_bodies:
+            gb = guard_bodies[rb.path]
+            if any(x[0] == r["block"] or (x[5] == (r["adt"], r["field"])) for x in option_guards(an, gb)):
+                ok = True
+                fb_decoders.update(dd for dd, v in DECODERS.items() if v == (r["adt"], r["field"]))
+                ctx.ob("R7.3", rb.path, "fallback-unreachable:%s.%s" % (r["adt"].rsplit("::", 1)[1], r["field"]), True,
+                       "the lookup is itself the guard: its None arm is the fall-through checked by R7.2, its Some arm hands the template to the decoder", site=rb.line(r["block"]))
+                continue
         ctx.ob("R7.3", rb.path, "fallback-unreachable:%s.%s" % (r["adt"].rsplit("::", 1)[1], r["field"]), ok,
                "template lookup in %s; %s" % (d or "a non-decoder function", "all callers are guarded by contains_key on the same map and key, so the lookup always hits" if ok else "not proven to hit: a missing template would decode with a fallback"),
                site=rb.line(r["block"]))
